@@ -34,6 +34,13 @@ TELL_FAULTS = [("objective", "length"), ("objective", "nan"), ("objective", "ran
 DRY_RUN_KINDS = {"flat", "text", "ragged"}
 
 
+def must_raise(fault):
+    """C11 names wrong shapes or lengths and non-finite objectives or measures as input the call rejects: for the
+    three core arguments an accepted call of these kinds is itself a violation. Extra fields stay lenient (the store
+    returns before looking at them when no row would be inserted), and so do the kinds NumPy may make valid."""
+    return fault["arg"] in ("solution", "objective", "measures") and fault["kind"] not in DRY_RUN_KINDS
+
+
 def faults_for(entry):
     if entry == "add":
         return ADD_FAULTS
